@@ -134,26 +134,29 @@ func (c *context) getParent() *Config {
 	return nil
 }
 
+// isRoot: the context of a configuration no other configuration holds. A
+// setting may be NAMED "" ({"a": {"": 1}}, or "a." with a path separator), so
+// an empty field name alone does not make a root.
+func (c *context) isRoot() bool {
+	return c.parent == nil && c.field == ""
+}
+
 func (c *context) path(sep string) string {
-	if c.field == "" {
-		return ""
+	if c.parent == nil {
+		return c.field
 	}
 
-	if c.parent != nil {
-		p := c.parent.Context()
-		if parent := p.path(sep); parent != "" {
-			return fmt.Sprintf("%v%v%v", parent, sep, c.field)
-		}
+	if p := c.parent.Context(); !p.isRoot() {
+		return fmt.Sprintf("%v%v%v", p.path(sep), sep, c.field)
 	}
-
 	return c.field
 }
 
 func (c *context) pathOf(field, sep string) string {
-	if p := c.path(sep); p != "" {
-		return fmt.Sprintf("%v%v%v", p, sep, field)
+	if c.isRoot() {
+		return field
 	}
-	return field
+	return fmt.Sprintf("%v%v%v", c.path(sep), sep, field)
 }
 
 func newBool(ctx context, m *Meta, b bool) *cfgBool {
